@@ -382,6 +382,9 @@ func (s *presetSource) world(i int) *check.World {
 	if s.prop == "C12" {
 		w.Differential = "fresh-config"
 	}
+	if s.prop == "C10" && i%2 == 0 {
+		w.Differential = "record-order"
+	}
 	return w
 }
 func (s *presetSource) exhaustive() bool { return false }
